@@ -235,6 +235,25 @@ def _guard(f):
         return "err " + type(e).__name__
 
 
+def _many(a, one):
+    """Run `one` on every case of a batch.  `a` is {"cases": [...], "log": path|None}: each result is appended to
+    the log as soon as it exists, so that after a hang or a dead child the harness knows which case did it."""
+    cases, log = (a["cases"], a.get("log")) if isinstance(a, dict) else (a, None)
+    out = []
+    f = open(log, "w") if log else None
+    try:
+        for c in cases:
+            r = _guard(lambda: one(c))
+            out.append(r)
+            if f:
+                f.write(json.dumps(r) + "\n")
+                f.flush()
+    finally:
+        if f:
+            f.close()
+    return out
+
+
 def _ent(name, mode, sha) -> str:
     return f"{hx(bytes(name))}:{int(mode)}:{hx(bytes(sha))}"
 
@@ -264,7 +283,7 @@ def _parse_one(O, c):
 def impl_parse_many(a):
     _child_init()
     import dulwich.objects as O
-    return [_guard(lambda: _parse_one(O, c)) for c in a]
+    return _many(a, lambda c: _parse_one(O, c))
 
 
 def _sort_one(O, c):
@@ -278,7 +297,7 @@ def _sort_one(O, c):
 def impl_sort_many(a):
     _child_init()
     import dulwich.objects as O
-    return [_guard(lambda: _sort_one(O, c)) for c in a]
+    return _many(a, lambda c: _sort_one(O, c))
 
 
 def _unpack_fn(kind, params):
@@ -308,7 +327,7 @@ def _bisect_one(P, c):
 def impl_bisect_many(a):
     _child_init()
     import dulwich.pack as P
-    return [_guard(lambda: _bisect_one(P, c)) for c in a]
+    return _many(a, lambda c: _bisect_one(P, c))
 
 
 def _mk_tree(O, ents):
@@ -332,7 +351,7 @@ def _merge_one(O, D, c):
 def impl_merge_many(a):
     _child_init()
     import dulwich.objects as O, dulwich.diff_tree as D
-    return [_guard(lambda: _merge_one(O, D, c)) for c in a]
+    return _many(a, lambda c: _merge_one(O, D, c))
 
 
 def _istree_one(O, D, c):
@@ -350,7 +369,7 @@ def _istree_one(O, D, c):
 def impl_istree_many(a):
     _child_init()
     import dulwich.objects as O, dulwich.diff_tree as D
-    return [_guard(lambda: _istree_one(O, D, c)) for c in a]
+    return _many(a, lambda c: _istree_one(O, D, c))
 
 
 def _blocks_one(O, D, chunks):
@@ -363,7 +382,7 @@ def _blocks_one(O, D, chunks):
 def impl_blocks_many(a):
     _child_init()
     import dulwich.objects as O, dulwich.diff_tree as D
-    return [_guard(lambda: _blocks_one(O, D, c)) for c in a]
+    return _many(a, lambda c: _blocks_one(O, D, c))
 
 
 def impl_hash_many(a):
@@ -498,6 +517,34 @@ def impl_battery(a):
     return obs
 
 
+def impl_hostile_trees(a):
+    """Repository level, hostile input: tree objects with the given payloads are stored as loose objects, the
+    repository is reopened and each tree is listed.  Returns 'ok <entries>' / 'err Class' per payload."""
+    _child_init()
+    import os
+    from dulwich.repo import Repo
+    from dulwich.objects import ShaFile, Tree
+    root = a["dir"]
+    os.makedirs(root, exist_ok=True)
+    import hashlib
+    import zlib
+    r = Repo.init_bare(root)
+    r.close()
+    ids = []
+    for p in a["payloads"]:
+        raw = b"tree %d\0" % len(unhx(p)) + unhx(p)
+        oid = hashlib.sha1(raw).hexdigest()
+        os.makedirs(os.path.join(root, "objects", oid[:2]), exist_ok=True)
+        with open(os.path.join(root, "objects", oid[:2], oid[2:]), "wb") as f:
+            f.write(zlib.compress(raw))
+        ids.append(oid.encode())
+    out = []
+    with Repo(root) as r:
+        for oid in ids:
+            out.append(_guard(lambda: "ok" + _ents([(e.path, e.mode, e.sha) for e in r[oid].iteritems(name_order=True)])))
+    return out
+
+
 def _has(idx, hexoid):
     try:
         idx.object_offset(hexoid.encode())
@@ -551,33 +598,40 @@ def driver_line(op: str, a, v: str) -> str:
     raise ValueError(op)
 
 
-MAX_ISOLATED_CRASHES = 4
+MAX_ISOLATED_CRASHES = 3
+_LOGDIR = [None]
 
 
-def _ask_many(wk, op: str, cases: list, chunk=400, state=None) -> list:
-    """Results ('ok …' | 'err Class' | 'crash …' | None = skipped) for each case.  A batch that kills the child or
-    hangs is bisected (short timeouts) until the offending cases are isolated; after MAX_ISOLATED_CRASHES isolated
-    crashes in one call the rest of the failing batches is skipped (None) — the verdict is decided by then."""
-    state = state if state is not None else {"crashes": 0}
-
-    def go(part, timeout):
-        if not part:
-            return []
-        if state["crashes"] >= MAX_ISOLATED_CRASHES and len(part) > 1:
-            return [None] * len(part)
-        rep = wk.ask({"mod": MOD, "op": op + "_many", "args": part}, timeout=timeout)
-        if "r" in rep and len(rep["r"]) == len(part):
-            return rep["r"]
-        if len(part) == 1:
-            if "crash" in rep:
-                state["crashes"] += 1
-                return [f"crash {rep['crash']}"]
-            return [f"err {rep.get('exc')}"]
-        mid = len(part) // 2
-        return go(part[:mid], 15) + go(part[mid:], 15)
-    out = []
+def _ask_many(wk, op: str, cases: list, chunk=400, timeout=30) -> list:
+    """Results ('ok …' | 'err Class' | 'crash …' | None = skipped) for each case.  The child logs every result as it
+    goes; when a batch hangs or kills the child, the log says which case did it ('crash …'), and the batch resumes
+    after that case.  After MAX_ISOLATED_CRASHES crashes in one call the remaining cases are skipped (None)."""
+    out, crashes = [], 0
+    log = str(Path(_LOGDIR[0]) / f"progress-{wk.variant}.jsonl") if _LOGDIR[0] else None
     for s in range(0, len(cases), chunk):
-        out += go(cases[s:s + chunk], 120)
+        part = cases[s:s + chunk]
+        while part:
+            if crashes >= MAX_ISOLATED_CRASHES:
+                out += [None] * len(part)
+                break
+            if log and Path(log).exists():
+                Path(log).unlink()
+            rep = wk.ask({"mod": MOD, "op": op + "_many", "args": {"cases": part, "log": log}}, timeout=timeout)
+            if "r" in rep and len(rep["r"]) == len(part):
+                out += rep["r"]
+                break
+            done = []
+            if log and Path(log).exists():
+                for line in Path(log).read_text().splitlines():
+                    try:
+                        done.append(json.loads(line))
+                    except ValueError:
+                        break
+            done = done[:len(part) - 1] if len(done) >= len(part) else done
+            out += done
+            crashes += 1
+            out.append(f"crash {rep.get('crash', rep.get('exc'))}")
+            part = part[len(done) + 1:]
     return out
 
 
@@ -755,7 +809,7 @@ def gen_parse_cases(ctx):
         cases.append([n, bool(strict), hx(text)])
         tags.append(tag)
     # 1. exhaustive mode tokens over the 12-symbol alphabet, in an otherwise valid entry
-    L = 4 if ctx.thorough else 3
+    L = 5 if ctx.thorough else 4
     sha20 = bytes(range(1, 21))
     for ln in range(0, L + 1):
         for tup in itertools.product(MODE_ALPHABET, repeat=ln):
@@ -770,10 +824,10 @@ def gen_parse_cases(ctx):
                 add(n, strict, ser_entry(tok, b"name", _sha(rng, n)), "odd")
             add(n, False, ser_entry(b"100644", b"first", _sha(rng, n)) + ser_entry(tok, b"second", _sha(rng, n)), "odd2")
     # 3. valid trees, and every truncation of small ones (missing terminators, truncated ids)
-    for _ in range(ctx.budget(150)):
+    for _ in range(ctx.budget(800)):
         n = rng.choice([20, 32])
         add(n, rng.random() < 0.5, gen_valid_tree(rng, n), "valid")
-    for _ in range(ctx.budget(6, mult=4)):
+    for _ in range(ctx.budget(20, mult=4)):
         n = rng.choice([20, 32])
         t = b""
         while len(t) < 30:
@@ -782,7 +836,7 @@ def gen_parse_cases(ctx):
             add(n, False, t[:cut], "trunc")
         add(32 if n == 20 else 20, False, t, "other-idlen")
     # 4. byte-level mutations of valid trees
-    for _ in range(ctx.budget(300)):
+    for _ in range(ctx.budget(2000)):
         n = rng.choice([20, 32])
         t = bytearray(gen_valid_tree(rng, n) or ser_entry(b"100644", b"a", _sha(rng, n)))
         for _ in range(rng.randint(1, 3)):
@@ -817,7 +871,7 @@ def gen_sort_cases(ctx):
             cases.append([False, _ents_wire([(n1, m1, H), (n2, m2, H)])])
             tags.append("pair-clean" if n1 in CLEAN_POOL and n2 in CLEAN_POOL else "pair-odd")
     # 2. random dictionaries from the pool (prefix families, dir/file twins), <= 20 entries
-    for _ in range(ctx.budget(400)):
+    for _ in range(ctx.budget(2000)):
         pool = rng.choice([NAME_POOL, CLEAN_POOL, CLEAN_POOL])
         names = rng.sample(pool, rng.randint(0, min(len(pool), 9)))
         modes = [rng.choice(MODES) if rng.random() < 0.97 else rng.choice(BAD_MODES) for _ in names]
@@ -825,12 +879,12 @@ def gen_sort_cases(ctx):
         tags.append("dict-clean" if pool is CLEAN_POOL else "dict-odd")
     # 3. all names of length <= 2 over a small alphabet as a family, random insertion order (clean: no NUL, no '/')
     fam = [bytes(t) for k in range(0, 3) for t in itertools.product(b"-.0a\xff", repeat=k)]
-    for _ in range(ctx.budget(40)):
+    for _ in range(ctx.budget(150)):
         names = rng.sample(fam, rng.randint(21, len(fam)))      # > 20: Rust's merge path, Python's run merging
         cases.append([rng.random() < 0.3, _ents_wire([(n, rng.choice([FILE, DIR, DIR, LINK]), H) for n in names])])
         tags.append("family>20")
     # 4. short names over an alphabet with NUL and '/', small dictionaries
-    for _ in range(ctx.budget(300)):
+    for _ in range(ctx.budget(2000)):
         names = list({bytes(rng.choice(b"-./0a\x00\xff") for _ in range(rng.randint(0, 3))) for _ in range(rng.randint(1, 6))})
         rng.shuffle(names)
         cases.append([False, _ents_wire([(n, rng.choice([FILE, DIR]), H) for n in names])])
@@ -849,7 +903,7 @@ def gen_bisect_cases(ctx):
 
     def table(n, w):
         return sorted({rng.randbytes(1) * 2 + rng.randbytes(w - 2) for _ in range(n)})
-    for _ in range(ctx.budget(120)):
+    for _ in range(ctx.budget(400)):
         w = rng.choice([20, 20, 32])
         t = table(rng.choice([0, 1, 2, 3, 5, 8, 16, 33]), w)
         n = len(t)
@@ -888,7 +942,7 @@ def gen_bisect_cases(ctx):
             if lo <= hi:
                 cases.append([lo, hi, hx(sid(rng.choice([lo, hi, (lo + hi) // 2]))), "synth", [OFF, 20]])
                 tags.append("near--2^31")
-    for _ in range(ctx.budget(100)):
+    for _ in range(ctx.budget(500)):
         lo = rng.randint(0, 2 ** 30 - 1)
         hi = rng.randint(lo, 2 ** 30 - 1)
         cases.append([lo, hi, hx(sid(rng.choice([lo, hi, rng.randint(lo, hi), hi + 1, lo - 1]), 32)), "synth", [OFF, 32]])
@@ -911,7 +965,7 @@ def gen_merge_cases(ctx):
             return []
         names = rng.sample(pool, rng.randint(1, min(7, len(pool))))
         return _ents_wire([(n, rng.choice(MODES) if rng.random() < 0.98 else rng.choice(BAD_MODES), rng.choice([H, H2])) for n in names])
-    for _ in range(ctx.budget(500)):
+    for _ in range(ctx.budget(3000)):
         pool = rng.choice([NAME_POOL, CLEAN_POOL])
         p = rng.choice(paths)
         cases.append([hx(p), tree(pool), tree(pool)])
@@ -928,7 +982,7 @@ def gen_istree_cases(ctx):
     rng = ctx.rng
     cases = ["N", "M"] + MODES + BAD_MODES + [2 ** 31, 2 ** 31 - 1, U32 - 1, U32, 2 ** 63, 2 ** 64 - 1, -2 ** 31, -2 ** 63 - 1, True]
     cases = [c if isinstance(c, str) else int(c) for c in cases]
-    for _ in range(ctx.budget(150)):
+    for _ in range(ctx.budget(1000)):
         b = rng.getrandbits(rng.choice([4, 12, 15, 16, 17, 31, 32, 33, 64]))
         cases.append(rng.choice([b, b | DIR, (b & ~0o170000) | DIR, -b]))
     return cases, ["fixed" if i < 32 else "random" for i in range(len(cases))]
@@ -941,7 +995,7 @@ def gen_blocks_cases(ctx):
     for L in range(0, 200, 7 if not ctx.thorough else 1):
         datas.append(b"y" * L)
         datas.append(b"y" * L + b"\n" + b"z" * (L % 70))
-    for _ in range(ctx.budget(200)):
+    for _ in range(ctx.budget(800)):
         alpha = rng.choice([b"a\n", b"ab\n", b"abc", bytes(range(256))])
         datas.append(bytes(rng.choice(alpha) for _ in range(rng.choice([1, 5, 60, 64, 70, 130, 300]))))
     cases, tags = [], []
@@ -975,11 +1029,11 @@ def _mk_workers(ctx):
 def _stream_int(ctx):
     """model of CPython int(tok, 8) vs the interpreter itself (in-process; pure)."""
     rng = ctx.rng
-    L = 5 if ctx.thorough else 4
+    L = 6 if ctx.thorough else 5
     toks = [bytes(t) for ln in range(0, L + 1) for t in itertools.product(MODE_ALPHABET, repeat=ln)]
     toks += ODD_TOKENS
     wsp = b" \t\n\x0b\x0c\r"
-    for _ in range(ctx.budget(2000)):
+    for _ in range(ctx.budget(10000)):
         core_ = bytes(rng.choice(b"01234567_") for _ in range(rng.randint(1, 14)))
         tok = bytes(rng.choice(wsp) for _ in range(rng.choice([0, 0, 1, 2]))) + rng.choice([b"", b"", b"+", b"-"]) + \
             rng.choice([b"", b"", b"0o", b"0O", b"0o_", b"0"]) + core_ + bytes(rng.choice(wsp) for _ in range(rng.choice([0, 0, 1])))
@@ -1093,16 +1147,26 @@ def _stream_delta(ctx, workers):
     rng = ctx.rng
     by_base: dict[bytes, list] = {}
     bases = [b"", b"a", bytes(range(256)), rng.randbytes(300)]
-    for _ in range(ctx.budget(200)):
+    for _ in range(ctx.budget(800)):
         base = rng.choice(bases)
         kind, d = c03.gen_structured_delta(rng, base)
         by_base.setdefault(base, []).append((kind, d))
     for base, lst in by_base.items():
         c03._compare_decoders(ctx, "delta.decode", workers, base, [d for _, d in lst], tags=[k for k, _ in lst])
+    # a base longer than 64 KiB: copies whose size field is zero / absent (meaning 0x10000), 3-byte sizes, far offsets
+    big = bytes(i % 251 for i in range(0x10001))
+    hdr = c03.enc_size(len(big))
+    bigd = [hdr + c03.enc_size(0x10000) + b"\x80", hdr + c03.enc_size(0x10000) + b"\x81\x01", hdr + c03.enc_size(0x10000) + b"\x81\x02",
+            hdr + c03.enc_size(0x10001) + b"\x80\x01z", hdr + c03.enc_size(0x10005) + b"\x90\x05\x80",
+            hdr + c03.enc_size(0x10000) + b"\xb0\x00\x00", hdr + c03.enc_size(0x10000) + b"\xf0\x00\x00\x00",
+            hdr + c03.enc_size(0x10000) + b"\xc0\x01", hdr + c03.enc_size(0x10001) + b"\xd0\x01\x01",
+            hdr + c03.enc_size(0x1000) + b"\xa0\x10", hdr + c03.enc_size(0x1000) + b"\x80", hdr + c03.enc_size(1) + b"\x94\x01\x01",
+            hdr + c03.enc_size(2) + b"\x93\xff\xff\x02", hdr + c03.enc_size(0xFFFF) + b"\xb0\xff\xff", hdr + c03.enc_size(0x20000) + b"\x80\x80"]
+    c03._compare_decoders(ctx, "delta.bigbase", workers, big, bigd, tags=["big"] * len(bigd))
     # exhaustive short deltas over C03's opcode alphabet against one base
     deltas = [bytes(t) for ln in range(0, 4) for t in itertools.product(c03.ALPHABET, repeat=ln)]
     c03._compare_decoders_batched(ctx, "delta.exhaustive3", workers, b"\x01\x02", deltas)
-    pairs = [c03.gen_pair(rng) for _ in range(ctx.budget(60))] + [("fixed", b"", b""), ("fixed", b"abc", b"abc"),
+    pairs = [c03.gen_pair(rng) for _ in range(ctx.budget(150, mult=4))] + [("fixed", b"", b""), ("fixed", b"abc", b"abc"),
                                                                   ("fixed", b"x" * 70000, b"x" * 70000 + b"y" * 300)]
     lines, meta = [], []
     for kind, base, target in pairs:
@@ -1149,7 +1213,7 @@ def _stream_battery(ctx, workers):
     for v, wk in workers.items():
         d = ctx.scratch / f"battery-{v}"
         d.mkdir(parents=True, exist_ok=True)
-        rep = wk.ask({"mod": MOD, "op": "battery", "args": {"dir": str(d)}}, timeout=600)
+        rep = wk.ask({"mod": MOD, "op": "battery", "args": {"dir": str(d)}}, timeout=90)
         res[v] = rep
         ctx.count("repo.battery", v, True, v + (":ok" if "r" in rep else ":fail"))
     if "py" in res and "rs" in res:
@@ -1170,6 +1234,28 @@ def _stream_battery(ctx, workers):
         ctx.sample({"stream": "repo.battery", "commits": a["r"].get("commits"), "n_objects": len(a["r"].get("objects_after", []))})
 
 
+def _stream_hostile_trees(ctx, workers):
+    """Repository-level face of the parse_tree divergences: loose tree objects with odd mode tokens, read back
+    through Repo.__getitem__ in both configurations."""
+    sha = bytes(range(1, 21))
+    toks = [b"100644", b"40000", b"-644", b"\t644", b"0o100644", b"100_644", b"777777777777", b"644\n", b"+100644", b"0100644", b"648", b""]
+    payloads = [hx(ser_entry(t, b"f", sha)) for t in toks] + [hx(ser_entry(b"100644", b"f", sha)[:-1])]
+    res = {}
+    for v, wk in workers.items():
+        rep = wk.ask({"mod": MOD, "op": "hostile_trees", "args": {"dir": str(ctx.scratch / f"hostile-{v}"), "payloads": payloads}}, timeout=90)
+        if "r" not in rep:
+            ctx.oracle_fail("repo.hostile-tree", {"variant": v, "rep": str(rep)[:300]}, f"listing stored tree objects crashed in the {v} configuration", None)
+            return
+        res[v] = rep["r"]
+    if len(res) == 2:
+        for p, a, b in zip(payloads, res["py"], res["rs"]):
+            ctx.count("repo.hostile-tree", p, True, ("py:" + a[:2]) + "/" + ("rs:" + b[:2]))
+            bad = oracle("parse", [20, False, p], a, b)
+            if bad:
+                ctx.oracle_fail("repo.hostile-tree", {"op": "parse", "args": [20, False, p], "py": a[:300], "rs": b[:300]},
+                                "repository level: Repo[tree_id] lists a stored tree object in one configuration only: " + bad[0], bad[1])
+
+
 def _run_corpus(ctx, workers):
     d = core.VERIF / "corpus" / "C15"
     if not d.exists():
@@ -1185,18 +1271,18 @@ def _run_corpus(ctx, workers):
 
 
 def _streams(ctx, workers):
-    _run_corpus(ctx, workers)
-    _stream_int(ctx)
-    _stream_parse(ctx, workers)
-    _stream_sort(ctx, workers)
-    _stream_bisect(ctx, workers)
-    _stream_merge(ctx, workers)
-    _stream_istree(ctx, workers)
-    _stream_blocks(ctx, workers)
-    _stream_delta(ctx, workers)
+    import time
+    t = ctx.extra_cov.setdefault("stream_wall_s", {})
+    for name, fn in [("corpus", _run_corpus), ("int", lambda c, w: _stream_int(c)), ("parse", _stream_parse), ("sort", _stream_sort),
+                     ("bisect", _stream_bisect), ("merge", _stream_merge), ("istree", _stream_istree), ("blocks", _stream_blocks),
+                     ("delta", _stream_delta)]:
+        t0 = time.time()
+        fn(ctx, workers)
+        t[name] = round(t.get(name, 0) + time.time() - t0, 2)
 
 
 def run(ctx: core.Ctx):
+    _LOGDIR[0] = ctx.scratch
     workers, ov = _mk_workers(ctx)
     if ov is None:
         ctx.notes.append("cargo build failed: Rust variant not exercised (see .cache/cargo.log)")
@@ -1224,6 +1310,7 @@ def run(ctx: core.Ctx):
             raise core.InfraError(f"py worker loaded an extension: {w['py']}")
         _streams(ctx, workers)
         _stream_battery(ctx, workers)
+        _stream_hostile_trees(ctx, workers)
     finally:
         for v in workers.values():
             v.close()
@@ -1232,6 +1319,7 @@ def run(ctx: core.Ctx):
 def search(ctx: core.Ctx):
     """Failing-input search after a broken obligation / correspondence: neighbourhood of the disagreeing cases,
     then the whole direct oracle again with fresh randomness (the budget is already x5 when a proof broke)."""
+    _LOGDIR[0] = ctx.scratch
     workers, ov = _mk_workers(ctx)
     try:
         neigh: dict[str, list] = {}
@@ -1282,6 +1370,7 @@ def search(ctx: core.Ctx):
 
 def replay(ctx: core.Ctx, data: dict) -> int:
     c = data.get("case", {})
+    _LOGDIR[0] = ctx.scratch
     workers, ov = _mk_workers(ctx)
     try:
         if "op" in c and c["op"] in OPS:
